@@ -986,6 +986,16 @@ Proof.
   rewrite (get_host_owner _ _ _ H), (route_general_idem _ _ _ _ E). reflexivity.
 Qed.
 
+(** whatever the authority of the URI is: the choice never fails *)
+Lemma choose_host_uri_total ops c b sni hh authority : build ops = Ok c ->
+  exists ch, choose_host_uri b V1 c sni hh authority = Ok ch.
+Proof.
+  intros H. unfold choose_host_uri, get_from_request_uri.
+  rewrite (get_option_or_default_general _ _ _ H).
+  destruct (route_general ops _ None) as [r|] eqn:E; [|eexists; reflexivity].
+  rewrite (get_host_owner _ _ _ H), (route_general_idem _ _ _ _ E). eexists; reflexivity.
+Qed.
+
 (** the text filter of the reference is idempotent *)
 Lemma requested_name_text_hd sni hh : requested_name sni (text_hd hh) = requested_name sni (hd_error hh).
 Proof.
